@@ -284,6 +284,29 @@ def layout_variants(code: str):
     return out
 
 
+def second_use_variants(code: str):
+    """Every name the module imports is used once more (at module level / inside a function): an import that the rewrite
+    no longer needs for the rewritten site must survive because remaining code still uses it."""
+    import ast
+    try:
+        tree = ast.parse(code)
+    except (SyntaxError, ValueError, RecursionError):
+        return []
+    names = []
+    for n in tree.body:
+        if isinstance(n, ast.Import):
+            names += [(a.asname or a.name.split(".")[0]) for a in n.names]
+        elif isinstance(n, ast.ImportFrom) and n.module != "__future__":
+            names += [(a.asname or a.name) for a in n.names if a.name != "*"]
+    names = sorted(set(names))
+    if not names:
+        return []
+    code_nl = code if code.endswith("\n") else code + "\n"
+    tup = ", ".join(names) + ("," if len(names) == 1 else "")
+    return [("second_use_module", code_nl + f"\n_second_use = ({tup})\n"),
+            ("second_use_function", code_nl + f"\n\ndef _second_use_fn():\n    return ({tup})\n")]
+
+
 _variants_basic = variants
 
 
@@ -291,4 +314,5 @@ def variants(code: str, shift_ok: bool):  # noqa: F811
     out = _variants_basic(code, shift_ok)
     if shift_ok:
         out.extend(layout_variants(code if code.endswith("\n") else code + "\n"))
+        out.extend(second_use_variants(code))
     return out
